@@ -58,7 +58,7 @@
 EXTENDS Integers, Sequences, FiniteSets, TLC
 
 CONSTANTS McDepth,     \* depth of the exhaustive tree set walked by the state machine
-          McLeafMode   \* "small" | "full": alphabet of that set;  "chain": trees by operator count (see Init)
+          McLeafMode   \* "small" | "full": alphabet of that set;  "chain" / "funcs": see Init
 
 Scale == 64
 MaxMag == 512 * Scale
@@ -527,14 +527,37 @@ BT(fk, d, c) ==
 \* Sorted trees by SIZE: NZ / BZ = numeric / boolean sorted trees with exactly k binary operators and no other
 \* compound node.  Printed with minimal parentheses these are the flat operator chains (and their parenthesised
 \* variants) on which the engine's post-parse rotation has to do all the work.
-RECURSIVE NZ(_, _, _), BZ(_, _, _)
-NZ(fk, k, c) ==
-    IF k = 0 THEN {Num(n) : n \in c.num} \cup (IF fk = "num" THEN {Fld} ELSE {})
-    ELSE UNION {Bins(c.arith, NZ(fk, i, c), NZ(fk, k - 1 - i, c)) : i \in 0 .. k - 1}
+RECURSIVE NZL(_, _, _), BZ(_, _, _)
+\* numeric chains with exactly k binary operators over the leaf set L
+NZL(L, k, c) ==
+    IF k = 0 THEN L
+    ELSE UNION {Bins(c.arith, NZL(L, i, c), NZL(L, k - 1 - i, c)) : i \in 0 .. k - 1}
+NLeaves(fk, c) == {Num(n) : n \in c.num} \cup (IF fk = "num" THEN {Fld} ELSE {})
+NZ(fk, k, c) == NZL(NLeaves(fk, c), k, c)
 BZ(fk, k, c) ==
     IF k = 0 THEN {Bool(b) : b \in c.bool} \cup (IF fk = "bool" THEN {Fld} ELSE {})
     ELSE UNION {Bins(c.rel \cup c.eq, NZ(fk, i, c), NZ(fk, k - 1 - i, c))
                   \cup Bins(c.logic \cup c.eq, BZ(fk, i, c), BZ(fk, k - 1 - i, c)) : i \in 0 .. k - 1}
+
+\* F: calls of in() whose ARGUMENTS are operator chains with 1..m binary operators, in the first, second and third
+\*    argument position, bare, negated and inside a larger expression.  (The engine parses and re-associates every
+\*    argument of a registered function - len, in, ... - separately from the enclosing expression:
+\*    spec_func.go parseFuncSign; the documented precedence applies inside arguments as anywhere else.)
+FTrees(fk, m, c) ==
+    LET NC == UNION {NZ(fk, k, c) : k \in 1 .. m}
+        NM == NZ(fk, m, c)
+        BC == UNION {BZ(fk, k, c) : k \in 1 .. m}
+        NL == NLeaves(fk, c)
+        n0 == Num(CHOOSE n \in c.num : TRUE)
+    IN {In(<<n, x>>) : n \in NC, x \in NL} \cup {In(<<x, n>>) : n \in NC, x \in NL}
+       \cup {In(<<x, n0, n>>) : n \in NM, x \in NL}
+       \cup {Not(In(<<n, n0>>)) : n \in NM}
+       \cup {Bin("&&", Bool(TRUE), In(<<n, n0>>)) : n \in NM}
+       \cup {In(<<b, Bool(TRUE)>>) : b \in BC} \cup {In(<<Bool(FALSE), b>>) : b \in BC}
+\* L: len($) as an operand inside mixed arithmetic chains under a comparison (field sorts str and slice)
+LTrees(m, c) ==
+    LET LL == {Num(n) : n \in c.num} \cup {LenF(Fld)}
+    IN UNION {Bins(c.rel \cup c.eq, NZL(LL, i, c), NZL(LL, k - 1 - i, c)) : <<k, i>> \in {<<kk, ii>> \in (1 .. m) \X (0 .. m - 1) : ii < kk}}
 
 \* Unsorted trees of depth <= 2 over an arbitrary leaf set (ill-typed combinations included)
 Untyped2(leaves, ops, pats) ==
@@ -560,12 +583,16 @@ NoVal == FV("int", 0, "", FALSE)
 \* McLeafMode = "chain": every boolean-sorted tree with <= McDepth binary operators over ALL 13 operators
 ChainCfg == [num |-> {2 * Scale}, str |-> {"a"}, bool |-> {TRUE}, arith |-> MulOps \cup AddOps, rel |-> RelOps,
              eq |-> EqOps, logic |-> {"&&", "||"}, funcs |-> FALSE, pat |-> {"^a"}]
+\* McLeafMode = "funcs": the F and L families (operator chains inside function arguments, len($) inside chains)
 Init == /\ \E k \in (IF McLeafMode = "chain" THEN {"num", "bool"} ELSE Sorts) :
               /\ wfk = k
-              /\ IF McLeafMode = "chain"
-                 THEN tree \in UNION {BZ(k, m, ChainCfg) : m \in 1 .. McDepth} /\ sortB = TRUE
-                 ELSE \/ tree \in BT(k, McDepth, McCfg) /\ sortB = TRUE
-                      \/ tree \in NT(k, McDepth - 1, McCfg) \cup ST(k, McDepth - 1, McCfg) /\ sortB = FALSE
+              /\ CASE McLeafMode = "chain" -> tree \in UNION {BZ(k, m, ChainCfg) : m \in 1 .. McDepth} /\ sortB = TRUE
+                   [] McLeafMode = "funcs" ->
+                        /\ tree \in FTrees(k, McDepth, [SmallCfg EXCEPT !.num = {2 * Scale}])
+                                      \cup (IF k \in {"str", "slice"} THEN LTrees(McDepth, SmallCfg) ELSE {})
+                        /\ sortB = TRUE
+                   [] OTHER -> \/ tree \in BT(k, McDepth, McCfg) /\ sortB = TRUE
+                               \/ tree \in NT(k, McDepth - 1, McCfg) \cup ST(k, McDepth - 1, McCfg) /\ sortB = FALSE
         /\ wps \in ParenStyles /\ wsp \in SpaceStyles
         /\ fval = NoVal /\ phase = "chosen" /\ text = "" /\ parsed = Bad /\ res = Ill
 
